@@ -250,7 +250,9 @@ func (s *CoAServer) receiveLoop(ctx context.Context) {
 		length := binary.BigEndian.Uint16(buf[2:4])
 		authenticator := buf[4:20]
 
-		if int(length) > n {
+		// The declared length must cover the 20-byte header and fit in the datagram;
+		// anything else is not a RADIUS packet and is silently discarded (RFC 2865 section 3).
+		if int(length) < 20 || int(length) > n {
 			continue
 		}
 
